@@ -551,7 +551,9 @@ def handle (q : Q) (op : String) (a : Proto.Args) : Q × String :=
   | "add" =>
     let (q', r, evs) := q.add (parseBufs (a.str "in")) (parseBufs (a.str "out"))
     -- a panicking `add` (empty buffer on the direct path) ends the case: nothing after it is compared
-    if r == .panic then (q', "panic") else (q', outStr q q' r evs (a.bool "nost"))
+    -- (today's code refuses it by a panic, which ends the case; a clean error return is the same refusal,
+    -- after which the history goes on from the unchanged state)
+    if r == .panic then (q', "refused-empty") else (q', outStr q q' r evs (a.bool "nost"))
   | "pop" =>
     let (q', r, evs) := q.popUsed (a.nat "tok") (parseBufs (a.str "in")) (parseBufs (a.str "out")); (q', outStr q q' r evs (a.bool "nost"))
   | "add_many" =>
